@@ -17,8 +17,10 @@ EXTENDS Integers, Sequences, FiniteSets, TLC, Json, MethodsGen
 
 Sides == {"inbound", "outbound"}
 \* policy classes: none | methods (an allow-list of admin methods: AllowedAdmin) | namespaces (AllowedNs) | both
-Policies == {"none", "methods", "namespaces", "both"}
-AllowedAdmin == {"DescribeCluster", "GetNamespace", "StreamWorkflowReplicationMessages"}
+\* methods2: an allow-list that does NOT contain the streaming method (the stream interceptor's refusal path)
+Policies == {"none", "methods", "methods2", "namespaces", "both"}
+AllowedAdminOf(p) == IF p = "methods2" THEN {"DescribeCluster"}
+                     ELSE {"DescribeCluster", "GetNamespace", "StreamWorkflowReplicationMessages"}
 AlwaysDenied == {"RegisterNamespace", "DeprecateNamespace"}
 \* names the caller may put into the request's namespace field ("-" = the request has no such field / leave it empty)
 \* mapping (local -> remote): ns-allowed <-> ns-remote-ok, ns-forbidden <-> ns-remote-bad
@@ -33,8 +35,12 @@ Methods == {[service |-> "admin", method |-> m, stream |-> m \in AdminStreamMeth
 \* quick: C15 method matrix with a fixed name; C16/C13 name matrix on the methods that have a namespace field
 \* "whichever transport": the remote-facing side of the proxy is a TCP server or a mux session
 Transports == {"tcp", "mux"}
-MethodCases == {[side |-> s, m |-> m, policy |-> p, mapping |-> TRUE, bypass |-> b, name |-> "ns-remote-ok", transport |-> tr] :
-                  s \in Sides, m \in Methods, p \in {"none", "methods"}, b \in BOOLEAN, tr \in Transports}
+\* hdr: which of the headers the proxy itself gives a meaning to the caller sends along - none, the translation-bypass header,
+\* the intra-proxy marker (x-s2s-intra-proxy: 1). They are ordinary client metadata: no verdict (Denied) reads them.
+Hdrs == {"none", "bypass", "intra"}
+MethodCases == {[side |-> s, m |-> m, policy |-> p, mapping |-> TRUE, bypass |-> (h = "bypass"), intra |-> (h = "intra"),
+                 name |-> "ns-remote-ok", transport |-> tr] :
+                  s \in Sides, m \in Methods, p \in {"none", "methods", "methods2"}, h \in Hdrs, tr \in Transports}
 NameCases == {[side |-> s, m |-> m, policy |-> p, mapping |-> mp, bypass |-> b, name |-> n, transport |-> "tcp"] :
                   s \in Sides, m \in {x \in Methods : x.hasns /\ ~x.stream}, p \in {"none", "namespaces", "both"}, mp \in BOOLEAN,
                   b \in BOOLEAN, n \in Names}
@@ -51,16 +57,26 @@ OneToOne(ls) == \A i, j \in 1..Len(ls) : i # j => (ls[i].local # ls[j].local /\ 
 SeenName(c) == IF ~c.m.hasns THEN "" ELSE
                IF ~c.mapping \/ c.bypass THEN c.name
                ELSE IF c.side = "inbound" THEN ToLocal(c.name) ELSE ToRemote(c.name)
-HasMethodPolicy(c) == c.policy \in {"methods", "both"}
+HasMethodPolicy(c) == c.policy \in {"methods", "methods2", "both"}
 HasNsPolicy(c) == c.policy \in {"namespaces", "both"}
 Denied(c) ==
   /\ c.side = "inbound" /\ c.policy # "none"
   /\ \/ (c.m.service = "workflow" /\ c.m.method \in AlwaysDenied)
-     \/ (c.m.service = "admin" /\ HasMethodPolicy(c) /\ c.m.method \notin AllowedAdmin)
+     \/ (c.m.service = "admin" /\ HasMethodPolicy(c) /\ c.m.method \notin AllowedAdminOf(c.policy))
      \/ (HasNsPolicy(c) /\ ~c.m.stream /\ c.m.hasns /\ SeenName(c) \notin AllowedNs)
 \* the name the caller sees in a response that echoes the name the serving cluster saw
 RespName(c) == IF ~c.mapping \/ c.bypass THEN SeenName(c)
                ELSE IF c.side = "inbound" THEN ToRemote(SeenName(c)) ELSE ToLocal(SeenName(c))
+
+(* ---------------- listing namespaces returns only allowed ones (C16) ------- *)
+\* the local cluster answers ListNamespaces with a page of allowed ("a") and forbidden ("f") namespaces in some order;
+\* the remote caller sees exactly the allowed ones, in order (under their remote names when a mapping is configured)
+ListShapes == UNION {[1..n -> {"a", "f"}] : n \in 0..4}
+ListCases == [shape : ListShapes, mapping : BOOLEAN, transport : {"tcp", "mux"}]
+SelectSeq2(q, T(_)) == LET F[i \in 0..Len(q)] == IF i = 0 THEN <<>> ELSE IF T(q[i]) THEN Append(F[i - 1], q[i]) ELSE F[i - 1] IN F[Len(q)]
+IsA(x) == x = "a"
+ListWant(c) == LET kept == SelectSeq2(c.shape, IsA)
+               IN [i \in 1..Len(kept) |-> IF c.mapping THEN "ns-remote-ok" ELSE "ns-allowed"]
 
 (* ---------------- search-attribute direction (C14) ------------------------ *)
 \* mapping: local sa-l <-> remote sa-r, identity entry sa-same, sa-free unmapped. Each cluster speaks its own names; whatever
